@@ -163,6 +163,21 @@ def bind_state(chk, S, tab, hist=None):
                                  lambda b: make_observable(op).apply(S.model, b), sp, out, BIG[0])
             except Exception as ex:
                 chk.violation(key0 + ":raised:" + op["k"], dict(det, long_batch=True, raised=repr(ex)))
+        # one configuration handed over as a 1-D tensor (where the observable takes that form at all): the value
+        # of that basis state
+        if not bad:
+            for k in {BIG[0] % N, (5 * BIG[0] + 1) % N}:
+                try:
+                    one = make_observable(op).apply(S.model, sp[k].clone())
+                except Exception:      # noqa: BLE001 - this observable has no 1-D form; nothing is claimed about it
+                    break
+                chk.evaluations += 1
+                want, tol, _ = exp[k]
+                if not (torch.is_tensor(one) and one.numel() == 1 and abs(mpmath.mpf(float(one.reshape(-1)[0])) - want) <= tol):
+                    chk.violation("%s:%s:local-value[1-D]" % (key0, op["k"]),
+                                  dict(det, basis_state=lattice.rows(n)[k], got=one.tolist() if torch.is_tensor(one) else repr(one),
+                                       expected=mpmath.nstr(want, 17)))
+                    break
         # absolute=True is the pointwise absolute value
         if op["k"] in ("X", "Y", "Z"):
             chk.evaluations += 1
